@@ -5,6 +5,7 @@ import (
 	"bytes"
 	"io"
 
+	"github.com/lianxiangcloud/linkchain/libs/common"
 	"github.com/lianxiangcloud/linkchain/libs/crypto/merkle"
 )
 
@@ -156,4 +157,40 @@ func H_C12_partset_of_a_block_outlives_later_blocks() {
 	}
 	verifAssert(bytes.Equal(got, want), "kept-parts-still-hold-the-original-bytes")
 	verifReach("checked")
+}
+
+// a transaction known by its hash only
+type c12Tx struct {
+	Tx
+	h common.Hash
+}
+
+func (t *c12Tx) Hash() common.Hash { return t.h }
+
+func c12TxList(n int) Txs {
+	txs := make(Txs, n)
+	for i := range txs {
+		var h common.Hash
+		copy(h[:], verifNondetBytes(32))
+		txs[i] = &c12Tx{h: h}
+	}
+	return txs
+}
+
+// The transaction root of a block (Data.Hash -> Header.DataHash) commits to every transaction at
+// every position: two lists of the same length with the same root are the same list of hashes, so a
+// body with any transaction replaced cannot keep the header's DataHash. (The inner hash is the
+// collision-free uninterpreted function; what is checked is that the tree construction leaves no
+// leaf out - at every length 1..6, odd ones included.)
+//verif:opt unwind=12 budget_s=600 split=6
+func H_C12_transaction_root_commits_to_every_transaction() {
+	n := 1 + verifCase(6)
+	a, b := c12TxList(n), c12TxList(n)
+	ra, rb := a.Hash(), b.Hash()
+	verifReach("roots")
+	if ra == rb {
+		for i := 0; i < n; i++ {
+			verifAssert(a[i].Hash() == b[i].Hash(), "equal-roots-mean-equal-transactions-at-every-position")
+		}
+	}
 }
